@@ -16,6 +16,8 @@
 //     TestParsePoint_TrailingSlash and the "backslash is literal" cases of points_test.go).
 //   - leading-hash-measurement: a line whose first non-blank byte is '#' is a comment
 //     (models.ParsePointsWithPrecision: "lines which start with '#' are comments").
+//   - reserved-tag-key: the tag keys time, _field and _measurement are refused by the parser
+//     (models: "reserved tag keys which when present cause the point to be discarded and an error returned").
 //
 // All randomness comes from the *rapid.T that is passed in.
 package lpgen
@@ -227,6 +229,11 @@ func GenTags(t *rapid.T, label string, ex Excl) []Tag {
 	var out []Tag
 	for i := 0; i < n; i++ {
 		k := Token(t, fmt.Sprintf("%s_k%d", label, i), ex)
+		if k == "time" || k == "_field" || k == "_measurement" {
+			// documented: "reserved tag keys which when present cause the point to be discarded"
+			ex.add("reserved-tag-key")
+			k += "_"
+		}
 		if seen[k] {
 			continue
 		}
